@@ -24,7 +24,8 @@ REQUIRED_REACH = ["exc_ok", "kind_plain", "kind_propget", "kind_propset", "kind_
 SHARD_TIMEOUT = {"quick": 240, "thorough": 2800}
 
 ARG_SHAPES = [(), ("msg",), ("msg", 2), (2, "strerror"), ("é\x00x", [1, {"k": None}], 2 ** 70, 1.5), ({"d": [1, 2.5, "s"]},), (None,), ("a", "b", "c", "d", "e", "f")]
-ATTR_SHAPES = [{}, {"custom_a": 1}, {"custom_a": "text é", "detail_b": [1, {"k": [None, True]}], "zz": 2 ** 80}, {"detail_b": {"nested": {"deeper": [1.5, -0.0]}}}]
+ATTR_SHAPES = [{}, {"custom_a": 1}, {"custom_a": "text é", "detail_b": [1, {"k": [None, True]}], "zz": 2 ** 80}, {"detail_b": {"nested": {"deeper": [1.5, -0.0]}}},
+               {"_detail": "disk seven", "code": 42, "_retry_after": 3}, {"__notes__": ["a note added with add_note"], "x1": None}]
 TEMPLATES = {"UnicodeEncodeError": [("utf-8", "text é", 1, 2, "reason")], "UnicodeTranslateError": [("text", 1, 2, "reason")]}
 BYTES_TEMPLATES = {"UnicodeDecodeError": [("utf-8", b"\xff\xfeabc", 0, 1, "invalid start byte")]}
 KINDS = ["plain", "propget", "propset", "batch0", "batch1", "batch3", "stream0", "stream2"]
